@@ -47,6 +47,79 @@ type keyioCase struct {
 	Steer   int // library-made ECDSA keys only: 0 = random key; n > 0 = Generate is fed the n-th scalar of shortCoord (mod its length)
 }
 
+// RSA sizes. DNSKEY.Generate takes the modulus length in BITS and accepts every value from 512 (1024
+// for RSASHA512) to 4096, and RFC 3110 puts no condition on the modulus beyond its length in octets:
+// a modulus of 1028, 1031 or 2047 bits is as good a key as one of 1024. "All supported key ...
+// sizes" therefore includes the lengths that are not a whole number of octets; the signature of such
+// a key is as long as the modulus in octets, rounded UP (RFC 8017 8.2.1: k = length in octets of n).
+// The generator draws the length from oddRSABits so that every residue modulo 8 occurs on both sides
+// of an octet boundary; keys are made once per (algorithm, length) and process.
+func oddRSABits(t *rapid.T) int {
+	if pbt.Thorough() && rapid.IntRange(0, 7).Draw(t, "oddbig") == 0 {
+		return rapid.IntRange(2041, 2056).Draw(t, "oddbits")
+	}
+	return rapid.IntRange(1025, 1040).Draw(t, "oddbits")
+}
+
+// detRSAKey is a reference-made RSA key with a modulus of exactly bits bits, a fixed function of
+// (bits, slot): the primes are the first probable primes in two SHA-512 counter streams (top two
+// bits set, so the product has the full length), e = 65537. Standard library only; made once per
+// process. The keys protect nothing.
+var (
+	detRSAMu    sync.Mutex
+	detRSACache = map[[2]int]*rsa.PrivateKey{}
+)
+
+func detPrime(label string, bits int) *big.Int {
+	e := big.NewInt(65537)
+	one := big.NewInt(1)
+	for ctr := 0; ; ctr++ {
+		var raw []byte
+		for blk := 0; len(raw)*8 < bits; blk++ {
+			h := sha512.Sum512([]byte(fmt.Sprintf("c17-rsa-prime/%s/%d/%d", label, ctr, blk)))
+			raw = append(raw, h[:]...)
+		}
+		p := new(big.Int).SetBytes(raw)
+		p.Rsh(p, uint(len(raw)*8-bits))
+		p.SetBit(p, bits-1, 1).SetBit(p, bits-2, 1).SetBit(p, 0, 1)
+		if !p.ProbablyPrime(20) {
+			continue
+		}
+		if new(big.Int).GCD(nil, nil, e, new(big.Int).Sub(p, one)).Cmp(one) != 0 {
+			continue
+		}
+		return p
+	}
+}
+
+func detRSAKey(bits, slot int) *rsa.PrivateKey {
+	if bits < 1024 || bits > 4096 {
+		return nil
+	}
+	detRSAMu.Lock()
+	defer detRSAMu.Unlock()
+	id := [2]int{bits, slot}
+	if k, ok := detRSACache[id]; ok {
+		return k
+	}
+	p := detPrime(fmt.Sprintf("%d/%d/p", bits, slot), (bits+1)/2)
+	q := detPrime(fmt.Sprintf("%d/%d/q", bits, slot), bits/2)
+	one := big.NewInt(1)
+	n := new(big.Int).Mul(p, q)
+	phi := new(big.Int).Mul(new(big.Int).Sub(p, one), new(big.Int).Sub(q, one))
+	d := new(big.Int).ModInverse(big.NewInt(65537), phi)
+	var k *rsa.PrivateKey
+	if d != nil && n.BitLen() == bits && p.Cmp(q) != 0 {
+		k = &rsa.PrivateKey{PublicKey: rsa.PublicKey{N: n, E: 65537}, D: d, Primes: []*big.Int{p, q}}
+		k.Precompute()
+		if k.Validate() != nil {
+			k = nil
+		}
+	}
+	detRSACache[id] = k
+	return k
+}
+
 // shortCoord lists scalars whose public point has two (or more) leading zero octets in X or in Y -
 // about one key in 32768, so DNSKEY.Generate on its own practically never shows how such a
 // coordinate is encoded. They were found by a plain search (ScalarBaseMult over ctr = 0..400000)
@@ -318,7 +391,7 @@ var keyioAlgs = []struct {
 func checkKeyIO(c keyioCase) (err error) {
 	okAlg := false
 	for _, a := range keyioAlgs {
-		if a.alg == c.Alg && (a.bits == c.Bits || (a.bits == 1024 && (c.Bits == 1280 || c.Bits == 2048 || c.Bits == 3072 || c.Bits == 4096))) {
+		if a.alg == c.Alg && (a.bits == c.Bits || (a.bits == 1024 && c.Bits >= 1024 && c.Bits <= 4096)) {
 			okAlg = true
 		}
 	}
@@ -340,7 +413,15 @@ func checkKeyIO(c keyioCase) (err error) {
 	if c.RefMade {
 		switch c.Alg {
 		case 5, 7, 8, 10:
-			priv = ref.RSAKey(c.Slot)
+			if c.Bits != 1024 {
+				rk := detRSAKey(c.Bits, c.Slot)
+				if rk == nil {
+					return nil // no such key (never generated)
+				}
+				priv = rk
+			} else {
+				priv = ref.RSAKey(c.Slot)
+			}
 		case 13, 14:
 			if priv, err = ref.ECDSAKeyFromSeed(c.Alg, c.Seed); err != nil {
 				return nil
@@ -376,7 +457,11 @@ func checkKeyIO(c keyioCase) (err error) {
 	}()
 
 	if rk, ok := priv.(*rsa.PrivateKey); ok {
-		pbt.Class(fmt.Sprintf("rsa-modulus-octets=%d", rk.Size()), fmt.Sprintf("rsa-exponent-octets=%d", len(big.NewInt(int64(rk.E)).Bytes())))
+		pbt.Class(fmt.Sprintf("rsa-modulus-octets=%d", rk.Size()), fmt.Sprintf("rsa-exponent-octets=%d", len(big.NewInt(int64(rk.E)).Bytes())),
+			fmt.Sprintf("rsa-modulus-bits-mod-8=%d", rk.N.BitLen()%8))
+		if !c.RefMade && rk.N.BitLen() != c.Bits {
+			return pbt.Errf("Generate(%d) for algorithm %d made a modulus of %d bits", c.Bits, c.Alg, rk.N.BitLen())
+		}
 	}
 	// the public key in the DNSKEY follows RFC 3110 / 6605 / 8080
 	oct, derr := base64.StdEncoding.DecodeString(k.PublicKey)
@@ -551,7 +636,12 @@ func genKeyIO(t *rapid.T) keyioCase {
 		}
 	}
 	c.RefMade = rapid.IntRange(0, 2).Draw(t, "refmade") == 0
-	if c.RefMade {
+	if a.bits == 1024 && c.Bits == 1024 && rapid.IntRange(0, 4).Draw(t, "oddsize") == 0 {
+		// a modulus whose length is not (or just is) a whole number of octets: made by Generate, or by the
+		// reference side (the key file of "a key met in the wild")
+		c.Bits = oddRSABits(t)
+		c.Slot = 0
+	} else if c.RefMade {
 		c.Bits = a.bits
 		if a.bits == 1024 && rapid.IntRange(0, 3).Draw(t, "edgekey") == 0 {
 			// reference-made keys at the bounds of RFC 3110 / the library: 512-octet modulus (4096
